@@ -417,6 +417,129 @@ fn gen_pair(ch: &mut Chooser) -> Case {
     Case { triggers: vec![TRIGGERS[a], TRIGGERS[b]], nesting, position, field_default: false, field_dashed: false, lang }
 }
 
+/// Multi-file mode on the real binary: k crates, each with one trigger at one position, every assignment.
+/// A helper used in a crate's file must be defined/imported in that file or, for Swift, in the shared Codable.swift
+/// of the same output folder. State that a backend carries from one file to the next is what this family is after.
+fn multi_file_family(rep: &mut Report) {
+    use crate::cli::{self, par_map, run_cli, s, Scratch};
+    if !cli::bin_available() {
+        rep.machinery(format!("hooks-on CLI binary missing at {}", cli::BIN));
+        return;
+    }
+    const MENU: [&str; 7] = ["string", "unit", "u32", "option", "generic-param", "mapped-DateTime", "hashmap"];
+    const POS: [&str; 3] = ["struct-field", "variant-payload", "alias"];
+    const CRATES: [&str; 3] = ["c1_alpha", "c2_beta", "c3_gamma"];
+    #[derive(Clone)]
+    struct Job {
+        lang: Lang,
+        picks: Vec<(usize, usize)>,
+    }
+    let thorough = rep.thorough();
+    let mut jobs = Vec::new();
+    for &lang in &ALL_LANGS {
+        for k in 2..=3usize {
+            let per = MENU.len() * POS.len();
+            let total = per.pow(k as u32);
+            for code in 0..total {
+                let mut c = code;
+                let mut picks = Vec::new();
+                for _ in 0..k {
+                    picks.push(((c % per) / POS.len(), (c % per) % POS.len()));
+                    c /= per;
+                }
+                // quick: with three crates only the struct-field position
+                if !thorough && k == 3 && picks.iter().any(|p| p.1 != 0) {
+                    continue;
+                }
+                jobs.push(Job { lang, picks });
+            }
+        }
+    }
+    struct Obs {
+        class: &'static str,
+        stderr: String,
+        sources: Vec<(String, String)>,
+        outputs: std::collections::BTreeMap<String, String>,
+        argv: Vec<String>,
+    }
+    let results = par_map(&jobs, report::threads(), |j| {
+        let sc = Scratch::new("c12");
+        let mut mappings: Vec<(String, String)> = Vec::new();
+        let mut sources = Vec::new();
+        for (i, (t, p)) in j.picks.iter().enumerate() {
+            let c = Case { triggers: vec![MENU[*t]], nesting: vec![], position: POS[*p], field_default: false, field_dashed: false, lang: j.lang };
+            mappings.extend(cfg_of(&c).type_mappings);
+            let tag = ["A", "B", "C"][i];
+            let src = render_file(&program(&c)).replace("Outer", &format!("Outer{tag}")).replace("User", &format!("User{tag}")).replace("Holder", &format!("Holder{tag}"));
+            let rel = format!("ws/{}/src/lib.rs", CRATES[i]);
+            sc.write(&rel, src.as_bytes());
+            sources.push((rel, src));
+        }
+        mappings.sort();
+        mappings.dedup();
+        let mut args = cli::lang_args(j.lang);
+        if !mappings.is_empty() {
+            let toml = format!("[{}.type_mappings]\n{}", j.lang.name(), mappings.iter().map(|(k, v)| format!("{k:?} = {v:?}\n")).collect::<String>());
+            let p = sc.write("typeshare.toml", toml.as_bytes());
+            args.extend([s("-c"), p.to_string_lossy().into_owned()]);
+        }
+        sc.mkdir("out");
+        args.extend([s("-d"), sc.path("out").to_string_lossy().into_owned(), sc.path("ws").to_string_lossy().into_owned()]);
+        let r = run_cli(&args, &sc.root, &[], std::time::Duration::from_secs(20));
+        let outputs = cli::snapshot(&sc.path("out")).into_iter().map(|(k, v)| (k, String::from_utf8_lossy(&v).into_owned())).collect();
+        Obs { class: r.class(), stderr: r.stderr.chars().take(600).collect(), sources, outputs, argv: args }
+    });
+    let mut judged = 0u64;
+    let mut nontrivial = BTreeSet::new();
+    let mut refused = 0u64;
+    for (j, o) in jobs.iter().zip(results.iter()) {
+        let label = j.picks.iter().map(|(t, p)| format!("{}@{}", MENU[*t], POS[*p])).collect::<Vec<_>>().join(",");
+        let detail = |what: String| json!({"argv": o.argv, "lang": j.lang.name(), "crates": o.sources.iter().map(|(p, s)| json!({"path": p, "source": s})).collect::<Vec<_>>(), "outputs": o.outputs, "stderr": o.stderr, "observation": what});
+        if o.class != "ok" {
+            // a clean refusal of the whole run (e.g. generic alias in Go) is not a missing helper
+            if o.class == "error" {
+                refused += 1;
+                continue;
+            }
+            rep.vios.add(Violation { sig: format!("C12|{}|multi-file|run-{}|{label}", j.lang.name(), o.class), detail: detail("the run did not finish normally".into()) });
+            continue;
+        }
+        let shared_defined: BTreeSet<String> = match (j.lang, o.outputs.get("Codable.swift")) {
+            (Lang::Swift, Some(t)) => helper_usage(Lang::Swift, t, &[]).map(|x| x.1).unwrap_or_default(),
+            _ => BTreeSet::new(),
+        };
+        for (name, text) in &o.outputs {
+            if name == "Codable.swift" {
+                continue;
+            }
+            judged += 1;
+            let (used, defined) = match helper_usage(j.lang, text, &["T", "H"]) {
+                Ok(x) => x,
+                Err(_) => continue, // unparseable output is C10's business
+            };
+            if !used.is_empty() {
+                nontrivial.insert(report::fnv64(&format!("{}|{label}|{name}", j.lang.name())));
+            }
+            for m in used.iter().filter(|u| !defined.contains(*u) && !shared_defined.contains(*u)) {
+                let idx = CRATES.iter().position(|c| name.to_lowercase().starts_with(&c.replace('_', "").to_lowercase()) || name.starts_with(c));
+                let (own, place) = match idx {
+                    Some(i) if i < j.picks.len() => (format!("trigger={}|pos={}", MENU[j.picks[i].0], POS[j.picks[i].1]), if i + 1 == j.picks.len() { "last" } else { "not-last" }),
+                    _ => ("trigger=?".to_string(), "?"),
+                };
+                rep.vios.add(Violation {
+                    sig: format!("C12|{}|multi-file|helper-undefined:{m}|{own}|crate-is-{place}", j.lang.name()),
+                    detail: detail(format!("{name} uses {m}; it is neither defined/imported there nor in a shared helper file (files written: {:?}); crates: {label}", o.outputs.keys().collect::<Vec<_>>())),
+                });
+            }
+        }
+    }
+    rep.cov("multi_file", json!({"process_runs": jobs.len(), "output_files_judged": judged, "files_with_helpers_in_use": nontrivial.len(), "runs_refused_cleanly": refused, "crates_per_run": [2, 3], "trigger_menu": MENU, "positions": POS,
+        "assignments": if thorough { "every (trigger, position) per crate" } else { "every (trigger, position) per crate for 2 crates; every trigger per crate at the field position for 3 crates" }, "languages": 6}));
+    rep.cov_add("evaluations", judged);
+    rep.cov_add("distinct_nontrivial", nontrivial.len() as u64);
+    rep.cov_add("traces_validated_against_impl", jobs.len() as u64);
+}
+
 fn controls(rep: &mut Report) {
     let canned = "from __future__ import annotations\n\nfrom pydantic import BaseModel\nfrom typing import List\n\n\nclass Outer(BaseModel):\n    f0: Optional[List[int]] = Field(default=None)\n";
     match helper_usage(Lang::Python, canned, &[]) {
@@ -475,9 +598,10 @@ pub fn run(args: &[String]) -> i32 {
         );
         merge(&mut rep, "trigger_pairs", accs, &stats, json!({"triggers": "all ordered pairs", "positions": &POSITIONS[..5], "nesting": ["none", "one constructor"], "languages": 6}));
     }
+    multi_file_family(&mut rep);
     require_nonvacuous(&mut rep);
     rep.cov("rule", json!("full product of trigger type × position × nesting chain (all chains up to the stated depth over 6 constructors) × field attributes × language, and all ordered trigger pairs; in each output the helper names in use (token scan outside comments/strings, per-language vocabulary) must be defined or imported in the same output. non-trivial = at least one helper name is in use."));
-    rep.assume("single-file mode only here; multi-file Swift (Codable.swift) is exercised at the CLI level");
+    rep.assume("multi-file mode is driven through the real binary (the shared Codable.swift is written by Language::post_generation, which only the CLI calls)");
     rep.assume("helper vocabulary per backend: Swift CodableVoid; Scala UByte/UShort/UInt/ULong; Python typing/pydantic/enum/datetime names, TypeVars and (de)serialiser functions; Go package qualifiers time. and json.; TypeScript ReviverFunc/ReplacerFunc whenever a Date/Uint8Array member exists; Kotlin @Serializable/@SerialName imports");
     rep.finish()
 }
